@@ -40,7 +40,13 @@ search correspondence replaces `calculate_excess`, so changes inside it are only
 does not carry is only as good as its oracle** — duration values (C07), `R_fp` (C15), written-vs-given values (C17) had no oracle at
 first; (3) **generators must reach the input class** — thin grout, laminar flow, unsorted height families, negative limits,
 non-whole-step rotation windows, one-sided loads; (4) **object identity and process history** — cached state keyed by `id()`, module
-level caches, lists aliased in place need scenarios that reuse objects and processes.  Changes to *translated* functions are always
+level caches, lists aliased in place need scenarios that reuse objects and processes; (5) **the glue around the anchors** (wave 4:
+manager, design classes, constructors, loaders, writers) — a check that drives the anchor function directly cannot see a change that
+sits in front of it; it took a from-scratch reference built from the requested numbers, reuse scenarios on real managers, design-level
+oracles through the public interface and the regenerated call-site lists (section 3.3) to see them.  Two wave-4 changes (C16-m7, C16-m8)
+leave the observation point of their property (`point_polygon_check`) untouched and are caught by C04, whose clause they break; one
+(C10-m7) is a loader change caught by C17.  One change (C15-m8) exposed a genuine defect of the unchanged tree (F23) because catching it
+needed a reference that did not come from the implementation.  Changes to *translated* functions are always
 caught twice: the regenerated definition no longer satisfies the theorem (broken obligation) and the oracle finds an input.
 """
 p = os.path.join(V, "DESIGN.md")
